@@ -353,6 +353,29 @@ def unit_invariance(ctx, thorough):
                                                             'detail': 'omega(k) changes when every length is expressed in another unit (all lengths / s, k * s)'})
                             break
     ctx.stage('unit_invariance', evaluations=n)
+    # the chain length the way callers hand it over: a numpy integer of 32 or 64 bits gives what the Python int gives (N = 50000:
+    # N * N does not fit 32 bits)
+    m = 0
+    kk = np.concatenate([np.logspace(-4, 1, 25), (np.arange(1, 17)) * 0.05])
+    for kind, make in (('Gaussian', lambda N: O.Gaussian(sigma=1.0, length=N)), ('FreelyJointedChain', lambda N: O.FreelyJointedChain(l=1.0, length=N)),
+                       ('GaussianRing', lambda N: O.GaussianRing(sigma=1.0, length=N))):
+        for N in (50000, 7):
+            with warnings.catch_warnings():
+                warnings.simplefilter('ignore')
+                with np.errstate(all='ignore'):
+                    try:
+                        ref = np.asarray(make(int(N)).calculate(np.array(kk)), dtype=float)
+                        for typ in (np.int32, np.int64):
+                            got = np.asarray(make(typ(N)).calculate(np.array(kk)), dtype=float)
+                            m += 1
+                            if not (np.all(np.isfinite(got)) and np.max(np.abs(got - ref) / (np.abs(ref) + 1e-3)) <= 1e-9):
+                                ctx.violation('EqualsPairSum.' + kind, {'family': 'length_types', 'action': 'Calculate', 'kind': kind, 'N': N, 'length_type': typ.__name__,
+                                                                       'detail': 'omega(k) for a chain length given as %s differs from that for the same length as int' % typ.__name__})
+                                break
+                    except Exception as ex:
+                        ctx.violation('Total.' + kind, {'family': 'length_types', 'action': 'Calculate', 'kind': kind, 'N': N,
+                                                        'observed': '%s: %s' % (type(ex).__name__, str(ex)[:120]), 'detail': 'evaluation raises for a numpy integer chain length'})
+    ctx.stage('length_types', evaluations=m)
 
 
 def run(ctx):
